@@ -362,12 +362,12 @@ class Pile(Widget, WidgetContainerMixin, WidgetContainerListContentsMixin):
             DeprecationWarning,
             stacklevel=2,
         )
-        focus_position = self.focus_position
+        focus_position = self.focus_position if self.contents else 0
         self.contents = [
             (w, ({Sizing.FIXED: WHSettings.GIVEN, Sizing.FLOW: WHSettings.PACK}.get(new_t, new_t), new_height))
             for ((new_t, new_height), (w, options)) in zip(item_types, self.contents)
         ]
-        if focus_position < len(item_types):
+        if focus_position < len(self.contents):
             self.focus_position = focus_position
 
     @property
